@@ -28,35 +28,42 @@
                                 wiped by the late ClosedStream (before fix D19; pclose[p] = ClosedStream not yet processed)
           DupClears = FALSE     seeded: a REPLACED inbound stream (the peer opened a second one) reports no ClosedStream, so
                                 what was learnt on it survives although the new stream's hello no longer announces it
+          CancelIdempotent = FALSE / RelayCancelIdempotent = FALSE   seeded: see CancelAgain / UnrelayAgain
    The constants TRUE are the checked behaviour (the repaired code: D19 = ClosedOrdered, D20 = RetryFanoutAware are fixed
    in the tree; FixD12 is the property, the tree still deviates: known finding D12). *)
 EXTENDS Naturals, Sequences, FiniteSets, TLC
 
 CONSTANTS Topics, Peers, Cap,
           MaxOps, MaxDrops, MaxResetOut, MaxResetIn, MaxDisc, MaxGate, MaxHold, MaxRemote, MaxRef,
-          AllowFanout,
+          AllowFanout, AllowRepeat,
           MaxDup,
-          FixD12, RetryRechecks, RetryFanoutAware, ClosedOrdered, DupClears
+          FixD12, RetryRechecks, RetryFanoutAware, ClosedOrdered, DupClears, CancelIdempotent, RelayCancelIdempotent
 
-VARIABLES subs, relays, kind,
+VARIABLES subs, relays, kind,        \* the CODE's bookkeeping: len(mySubs[t]), myRelays[t], topic handle
+          live, rlive,               \* the TRUTH: live Subscription handles / not yet cancelled RelayCancelFuncs of the application
+          stale, rstale,             \* some already cancelled Subscription / relay-cancel handle of t exists (can be cancelled AGAIN)
           conn, out, inb, q, infl, gated, hold, retry, wf, their, bel,
           pclose, cnt, bad
 
-vars == <<subs, relays, kind, conn, out, inb, q, infl, gated, hold, retry, wf, their, bel, pclose, cnt, bad>>
-nutv == <<subs, relays, kind>>
+vars == <<subs, relays, kind, live, rlive, stale, rstale, conn, out, inb, q, infl, gated, hold, retry, wf, their, bel, pclose, cnt, bad>>
+nutv == <<subs, relays, kind, live, rlive, stale, rstale>>
 
 None == <<>>
 NoWire == [t \in Topics |-> FALSE]
 
-InterestedW(s, r, k, t) == (s[t] > 0 /\ k[t] # "fanout") \/ r[t] > 0
-Interested(t) == InterestedW(subs, relays, kind, t)
-\* what the retry closure of the code looks at
-RetryOk(t) == IF RetryFanoutAware THEN Interested(t) ELSE (subs[t] > 0 \/ relays[t] > 0)
+(* interest truth = (number of LIVE subscription handles on a topic not marked fanout-only + live relay references) > 0 *)
+InterestedW(l, r, k, t) == (l[t] > 0 /\ k[t] # "fanout") \/ r[t] > 0
+Interested(t) == InterestedW(live, rlive, kind, t)
+\* what the code believes (getHelloPacket, the retry closure): in the correct code subs = live and relays = rlive
+CodeInterested(t) == InterestedW(subs, relays, kind, t)
+RetryOk(t) == IF RetryFanoutAware THEN CodeInterested(t) ELSE (subs[t] > 0 \/ relays[t] > 0)
 
 ListPeers(t) == {p \in Peers : out[p] # "none" /\ p \in bel[t]}
 
 Init ==
     /\ subs = [t \in Topics |-> 0] /\ relays = [t \in Topics |-> 0] /\ kind = [t \in Topics |-> "none"]
+    /\ live = [t \in Topics |-> 0] /\ rlive = [t \in Topics |-> 0]
+    /\ stale = [t \in Topics |-> FALSE] /\ rstale = [t \in Topics |-> FALSE]
     /\ conn = [p \in Peers |-> FALSE] /\ out = [p \in Peers |-> "none"] /\ inb = [p \in Peers |-> FALSE]
     /\ q = [p \in Peers |-> <<>>] /\ infl = [p \in Peers |-> None]
     /\ gated = [p \in Peers |-> FALSE] /\ hold = [p \in Peers |-> FALSE]
@@ -78,50 +85,77 @@ PushAll(t, b, c) ==
     /\ retry' = retry \cup {<<p, t, b>> : p \in {x \in Peers : Full(x)}}
     /\ cnt' = [c EXCEPT !.drops = @ + Cardinality({x \in Peers : Full(x)})]
 
-(* an API operation on topic t: new counts s1/r1/k1, the code's decision to announce (ann) value b.
-   The monitor `bad` compares the decision with the edge of Interested(t) at ENQUEUE time. *)
-ApiOp(t, s1, r1, k1, ann, b) ==
+NV == [subs |-> subs, relays |-> relays, kind |-> kind, live |-> live, rlive |-> rlive, stale |-> stale, rstale |-> rstale]
+
+(* an API operation on topic t: nv = the new values of the node-side variables, ann = the CODE's decision to announce
+   value b. The monitor `bad` compares the decision with the edge of the TRUE interest at ENQUEUE time. *)
+ApiOp(t, nv, ann, b) ==
     LET i0 == Interested(t)
-        i1 == InterestedW(s1, r1, k1, t)
+        i1 == InterestedW(nv.live, nv.rlive, nv.kind, t)
         c  == [cnt EXCEPT !.ops = @ + 1] IN
     /\ cnt.ops < MaxOps
-    /\ subs' = s1 /\ relays' = r1 /\ kind' = k1
+    /\ subs' = nv.subs /\ relays' = nv.relays /\ kind' = nv.kind
+    /\ live' = nv.live /\ rlive' = nv.rlive /\ stale' = nv.stale /\ rstale' = nv.rstale
     /\ bad' = bad \cup (IF ann /\ ~(i0 # i1 /\ b = i1) THEN {"spurious"} ELSE {})
                   \cup (IF ~ann /\ i0 # i1 THEN {"missing"} ELSE {})
     /\ IF ann THEN PushAll(t, b, c) ELSE cnt' = c /\ UNCHANGED <<q, retry>>
     /\ UNCHANGED <<pclose, conn, out, inb, infl, gated, hold, wf, their, bel>>
 
+Joined(nv, t) == IF nv.kind[t] = "none" THEN [nv EXCEPT !.kind[t] = "normal"] ELSE nv
+
 \* handleAddSubscription (Topic.Subscribe joins the topic as a normal one when there is no handle)
 Subscribe(t) ==
-    /\ subs[t] < MaxRef
-    /\ LET k1 == IF kind[t] = "none" THEN [kind EXCEPT ![t] = "normal"] ELSE kind IN
-       ApiOp(t, [subs EXCEPT ![t] = @ + 1], relays, k1,
-             subs[t] = 0 /\ relays[t] = 0 /\ k1[t] # "fanout", TRUE)
+    /\ live[t] < MaxRef /\ subs[t] < MaxRef
+    /\ LET nv == [Joined(NV, t) EXCEPT !.subs[t] = @ + 1, !.live[t] = @ + 1] IN
+       ApiOp(t, nv, subs[t] = 0 /\ relays[t] = 0 /\ nv.kind[t] # "fanout", TRUE)
 
-\* handleRemoveSubscription
+(* handleRemoveSubscription for a subscription that IS in mySubs[t]: delete it, then test for empty.
+   (subs[t] = 0 although a handle is live can only happen after a deviation dropped the entry: the code returns.) *)
 Cancel(t) ==
-    /\ subs[t] > 0
-    /\ ApiOp(t, [subs EXCEPT ![t] = @ - 1], relays, kind,
-             subs[t] = 1 /\ relays[t] = 0 /\ kind[t] # "fanout", FALSE)
+    /\ live[t] > 0
+    /\ LET nv0 == [NV EXCEPT !.live[t] = @ - 1, !.stale[t] = AllowRepeat] IN
+       IF subs[t] = 0 THEN ApiOp(t, nv0, FALSE, FALSE)
+       ELSE ApiOp(t, [nv0 EXCEPT !.subs[t] = @ - 1], subs[t] = 1 /\ relays[t] = 0 /\ kind[t] # "fanout", FALSE)
+
+(* Subscription.Cancel called AGAIN on an already cancelled handle (or a stale Cancel of an old subscription after a
+   re-subscribe): the subscription is not in mySubs[t] any more. The code deletes first and tests for empty afterwards,
+   so nothing happens (idempotent). CancelIdempotent = FALSE is the seeded variant that decides "last subscription" from
+   the map size BEFORE removing: with exactly one live sibling it drops the sibling's entry and announces. *)
+CancelAgain(t) ==
+    /\ AllowRepeat /\ stale[t]
+    /\ IF subs[t] = 0 \/ CancelIdempotent \/ subs[t] > 1
+         THEN ApiOp(t, NV, FALSE, FALSE)
+         ELSE ApiOp(t, [NV EXCEPT !.subs[t] = 0], relays[t] = 0 /\ kind[t] # "fanout", FALSE)
 
 \* handleAddRelay (Topic.Relay refuses fanout-only topics: ErrFanoutOnlyTopic, nothing happens)
 Relay(t) ==
-    /\ relays[t] < MaxRef /\ kind[t] # "fanout"
-    /\ LET k1 == IF kind[t] = "none" THEN [kind EXCEPT ![t] = "normal"] ELSE kind IN
-       ApiOp(t, subs, [relays EXCEPT ![t] = @ + 1], k1, relays[t] = 0 /\ subs[t] = 0, TRUE)
+    /\ rlive[t] < MaxRef /\ relays[t] < MaxRef /\ kind[t] # "fanout"
+    /\ LET nv == [Joined(NV, t) EXCEPT !.relays[t] = @ + 1, !.rlive[t] = @ + 1] IN
+       ApiOp(t, nv, relays[t] = 0 /\ subs[t] = 0, TRUE)
 
-\* handleRemoveRelay
+\* handleRemoveRelay (returns when the count is already zero)
+RemoveRelay(t, nv0) ==
+    IF relays[t] = 0 THEN ApiOp(t, nv0, FALSE, FALSE)
+    ELSE ApiOp(t, [nv0 EXCEPT !.relays[t] = @ - 1], relays[t] = 1 /\ subs[t] = 0, FALSE)
 Unrelay(t) ==
-    /\ relays[t] > 0
-    /\ ApiOp(t, subs, [relays EXCEPT ![t] = @ - 1], kind, relays[t] = 1 /\ subs[t] = 0, FALSE)
+    /\ rlive[t] > 0
+    /\ RemoveRelay(t, [NV EXCEPT !.rlive[t] = @ - 1, !.rstale[t] = AllowRepeat])
 
-\* Join(t, FanoutOnly()) / Topic.Close (only possible without subscriptions and relays)
+(* a RelayCancelFunc called a second time: the closure remembers isCancelled and returns (documented: "Subsequent calls
+   increase the reference counter. To completely disable the relay, all references must be cancelled" - one reference
+   per function). RelayCancelIdempotent = FALSE is the seeded variant without the flag. *)
+UnrelayAgain(t) ==
+    /\ AllowRepeat /\ rstale[t]
+    /\ IF RelayCancelIdempotent THEN ApiOp(t, NV, FALSE, FALSE) ELSE RemoveRelay(t, NV)
+
+\* Join(t, FanoutOnly()) / Topic.Close (refused while subscriptions or relays exist: nothing happens, Cancel still works afterwards)
 JoinFanout(t) ==
     /\ AllowFanout /\ kind[t] = "none"
-    /\ ApiOp(t, subs, relays, [kind EXCEPT ![t] = "fanout"], FALSE, FALSE)
+    /\ ApiOp(t, [NV EXCEPT !.kind[t] = "fanout"], FALSE, FALSE)
 CloseTopic(t) ==
-    /\ AllowFanout /\ kind[t] # "none" /\ subs[t] = 0 /\ relays[t] = 0
-    /\ ApiOp(t, subs, relays, [kind EXCEPT ![t] = "none"], FALSE, FALSE)
+    /\ AllowFanout /\ kind[t] # "none"
+    /\ IF subs[t] = 0 /\ relays[t] = 0 THEN ApiOp(t, [NV EXCEPT !.kind[t] = "none"], FALSE, FALSE)
+       ELSE AllowRepeat /\ ApiOp(t, NV, FALSE, FALSE)
 
 ----------------------------------------------------------------------------
 (* connection and streams *)
@@ -142,7 +176,7 @@ QueueCreated(p) ==
 StreamUp(p) ==
     /\ out[p] = "queueOnly" /\ ~hold[p]
     /\ out' = [out EXCEPT ![p] = "up"]
-    /\ wf' = [wf EXCEPT ![p] = [t \in Topics |-> Interested(t)]]
+    /\ wf' = [wf EXCEPT ![p] = [t \in Topics |-> CodeInterested(t)]]      \* getHelloPacket reads mySubs / myRelays
     /\ UNCHANGED <<pclose, nutv, conn, inb, q, infl, gated, hold, retry, their, bel, cnt, bad>>
 
 \* the remote's stream to the NUT comes up; a correct remote sends its hello on it
@@ -232,7 +266,8 @@ Internal ==
     \/ \E p \in Peers : QueueCreated(p) \/ StreamUp(p) \/ RemoteOpen(p) \/ ClosedStream(p) \/ WriterPop(p) \/ WriterWrite(p)
     \/ \E r \in retry : RetryFire(r)
 Env ==
-    \/ \E t \in Topics : Subscribe(t) \/ Cancel(t) \/ Relay(t) \/ Unrelay(t) \/ JoinFanout(t) \/ CloseTopic(t)
+    \/ \E t \in Topics : Subscribe(t) \/ Cancel(t) \/ CancelAgain(t) \/ Relay(t) \/ Unrelay(t) \/ UnrelayAgain(t)
+                         \/ JoinFanout(t) \/ CloseTopic(t)
     \/ \E p \in Peers : PeerConnect(p) \/ Disconnect(p) \/ ResetOutbound(p) \/ ResetInbound(p)
                          \/ Gate(p) \/ Ungate(p) \/ Hold(p) \/ Release(p)
     \/ \E p \in Peers, t \in Topics : RemoteSub(p, t)
@@ -256,6 +291,9 @@ TypeOK ==
     /\ \A p \in Peers : Len(q[p]) <= Cap /\ (out[p] # "none" => conn[p])
     /\ \A t \in Topics : kind[t] = "fanout" => relays[t] = 0
     /\ \A t \in Topics : kind[t] = "none" => subs[t] = 0 /\ relays[t] = 0
+
+\* the code's maps count exactly the live handles (sanity of the repaired model; not part of the property)
+HandlesMatch == \A t \in Topics : subs[t] = live[t] /\ relays[t] = rlive[t]
 
 P_C05_WireTruth ==
     Quiet => \A p \in Peers : conn[p] => \A t \in Topics : wf[p][t] = Interested(t)
